@@ -232,9 +232,11 @@ func RunPktExtra(prop, tier string, models []*PktModel, depth []int, budget time
 	outcomes := map[string]int{}
 	counters := map[string]int{}
 	selfTests := 0
-	per := budget / time.Duration(len(models))
+	end := start.Add(budget)
 	for i, m := range models {
-		cfg := explore.Config{Workers: workers(), MaxDepth: depth[i], Deadline: time.Now().Add(per)}
+		// time a scenario does not use is passed on to the scenarios after it
+		per := time.Until(end) / time.Duration(len(models)-i)
+		cfg := explore.Config{Workers: workers(), MaxDepth: depth[i], Deadline: time.Now().Add(per), MaxStates: 120000} // the state cap bounds memory (~100 KB of copied B-tree nodes per state)
 		r := explore.Run(m, cfg)
 		for _, f := range r.Findings {
 			if f.Property == prop {
